@@ -44,7 +44,7 @@ PLAN = {
     "C13": [TERM, CONNECT], "C14": [TERM, CONNECT], "C23": [CONNECT, DATA_BPUB, SLEEP], "C24": [CONNECT, DATA_PUB, DATA_CTRL],
     "C34": [SLEEP, CONNECT],
 }
-QUICK_SAMPLE = 700      # schedules per MC configuration executed in the quick tier
+QUICK_SAMPLE = 1200     # schedules per MC configuration executed in the quick tier
 
 
 def tla_set(xs):
@@ -119,6 +119,49 @@ def run_walks(n, depth, family="data", groups=None, auth=(False,), msgids=(1, 2)
     if "is violated" in res["out"]:
         raise vlib.Inconclusive("design check failed during simulation:\n" + "\n".join(vlib.tlc_printed(res, "BAD:")[:3]))
     return [json.loads(js) for js in vlib.tlc_printed(res, "SCHED:")]
+
+
+def shape(d):
+    """coarse shape of a schedule: event types with the parameters that select code paths"""
+    out = []
+    for e in d["events"]:
+        if e["t"] == "C":
+            p = e["p"]
+            out.append((p["t"], p["rc"], p["tit"], p["qos"] == 3, p["dur"] > 0, p["will"], p["plainok"], p["empty"], p["wild"]))
+        elif e["t"] == "B":
+            m = e["m"]
+            out.append(("b" + m["t"], m["rc"], m["qos"], tuple(m["codes"]), m["short"]))
+        else:
+            out.append((e["t"],))
+    return tuple(out)
+
+
+def stratified(scheds, budget, rnd):
+    """Seeded sample of `budget` schedules that keeps every short schedule and spreads the rest evenly
+    over the distinct shapes (so rare sequences are not drowned by the many variants of common ones)."""
+    if len(scheds) <= budget:
+        return scheds
+    short = [d for d in scheds if len(d["events"]) <= 2]
+    rest = [d for d in scheds if len(d["events"]) > 2]
+    if len(short) > budget // 3:
+        short = rnd.sample(short, budget // 3)
+    strata = {}
+    for d in rest:
+        strata.setdefault(shape(d), []).append(d)
+    keys = sorted(strata, key=repr)
+    rnd.shuffle(keys)
+    for k in keys:
+        rnd.shuffle(strata[k])
+    picked, i = [], 0
+    want = budget - len(short)
+    while len(picked) < want and keys:
+        k = keys[i % len(keys)]
+        if strata[k]:
+            picked.append(strata[k].pop())
+            i += 1
+        else:
+            keys.remove(k)
+    return short + picked
 
 
 def to_scenarios(scheds, tag, tail=70):
@@ -227,8 +270,8 @@ def run(prop, tier, replay=None):
             states += res["distinct"]
             transitions += res["generated"]
             total = len(scheds)
-            if tier == "quick" and len(scheds) > QUICK_SAMPLE:
-                scheds = rnd.sample(scheds, QUICK_SAMPLE)
+            if tier == "quick":
+                scheds = stratified(scheds, QUICK_SAMPLE, rnd)
             mc_info.append(dict(config=c["family"] + ":" + "+".join(c["groups"]), distinct=res["distinct"],
                                 generated=res["generated"], schedules=total, executed=len(scheds)))
             scenarios += to_scenarios(scheds, "%s-mc%d" % (prop, k))
